@@ -17,7 +17,6 @@ package internal
 import (
 	"bufio"
 	"bytes"
-	"cmp"
 	"crypto/tls"
 	"errors"
 	"fmt"
@@ -229,31 +228,9 @@ func FilterExpiredKeys(now time.Time, state map[int]map[string]KeyData) map[int]
 
 // CompareLex returns -1 when s2 is lexicographically greater than s1,
 // 0 if they're equal and 1 if s2 is lexicographically less than s1.
+// The comparison is byte-wise; a proper prefix sorts before the longer string.
 func CompareLex(s1 string, s2 string) int {
-	if s1 == s2 {
-		return 0
-	}
-	if strings.Contains(s1, s2) {
-		return 1
-	}
-	if strings.Contains(s2, s1) {
-		return -1
-	}
-
-	limit := len(s1)
-	if len(s2) < limit {
-		limit = len(s2)
-	}
-
-	var c int
-	for i := 0; i < limit; i++ {
-		c = cmp.Compare(s1[i], s2[i])
-		if c != 0 {
-			break
-		}
-	}
-
-	return c
+	return strings.Compare(s1, s2)
 }
 
 func EncodeCommand(cmd []string) []byte {
